@@ -75,15 +75,26 @@ fn eval_ok(s: &mut SutSession, f: &Sx) -> Result<Sx, String> {
 }
 
 fn run_template(ctx: &Ctx, kind: &str, live: usize, n: usize, sliced: bool) -> Option<(String, String)> {
+    run_template_with(ctx, kind, live, n, sliced, false)
+}
+
+/// `rich`: every element of the live set is a record (a list holding two numbers, a string and a
+/// vector: about a dozen cells) instead of one pair, so that 1000 live objects outgrow the first
+/// heap chunk.
+fn run_template_with(ctx: &Ctx, kind: &str, live: usize, n: usize, sliced: bool, rich: bool) -> Option<(String, String)> {
     // sliced: the whole computation is driven with prepare_eval + run_count(1000), the way the
     // wasm front end drives the VM (collections then only happen at the pauses)
     let mode = if sliced { crate::session::EvalMode::Sliced(vec![1000]) } else { crate::session::EvalMode::Whole };
     let mut s = SutSession::new(RunOpts { instr_budget: usize::MAX / 4, mode, ..RunOpts::default() });
     let obs = install_observer(&mut s, 1);
     // live set: a list of `live` fresh pairs, checksum known
+    let element = if rich { "(list i (vector i \"record\") (make-string 2 #\\r) (* i 2))" } else { "(cons i (* i 2))" };
+    let second = if rich { "(car (cdr (cdr (cdr (car l)))))" } else { "(cdr (car l))" };
     let setup = format!(
-        "(define (c12-make n) (let loop ((i 0) (acc '())) (if (< i n) (loop (+ i 1) (cons (cons i (* i 2)) acc)) acc))) (define c12-live (c12-make {})) (define (c12-sum l acc) (if (null? l) acc (c12-sum (cdr l) (+ acc (car (car l)) (cdr (car l)))))) (define (c12-deep n) (if (= n 0) 0 (+ 1 (c12-deep (- n 1))))) (define c12-current #f) (define (c12-remember! k) (set! c12-current (cons 'checkpoint k))) (define (c12-checkpoint) (c12-remember! (call/cc (lambda (k) k)))) (c12-deep 600)",
-        live
+        "(define (c12-make n) (let loop ((i 0) (acc '())) (if (< i n) (loop (+ i 1) (cons {element} acc)) acc))) (define c12-live (c12-make {})) (define (c12-sum l acc) (if (null? l) acc (c12-sum (cdr l) (+ acc (car (car l)) {second})))) (define (c12-deep n) (if (= n 0) 0 (+ 1 (c12-deep (- n 1))))) (define c12-current #f) (define (c12-remember! k) (set! c12-current (cons 'checkpoint k))) (define (c12-checkpoint) (c12-remember! (call/cc (lambda (k) k)))) (c12-deep 600)",
+        live,
+        element = element,
+        second = second
     );
     for f in read_all(&setup).unwrap() {
         if let Err(e) = eval_ok(&mut s, &f) {
@@ -150,7 +161,10 @@ fn run_template(ctx: &Ctx, kind: &str, live: usize, n: usize, sliced: bool) -> O
         ctx.class_n("collections", m2.collections);
         ctx.extra_max("max_heap_capacity_cells", m2.heap_cap as u64);
         if m2.collections >= 3 {
-            ctx.nontrivial_str(&format!("{}|{}|{}|{}", kind, live, n, sliced));
+            ctx.nontrivial_str(&format!("{}|{}|{}|{}|{}", kind, live, n, sliced, rich));
+            if rich {
+                ctx.class("live-set-of-records");
+            }
         }
         ctx.sample(|| json!({"kind": kind, "live": live, "n": n, "sliced": sliced, "after_n": {"heap_cells": m1.heap_cap, "stack_slots": m1.stack_cap, "bytes": m1.bytes}, "after_10n": {"heap_cells": m2.heap_cap, "stack_slots": m2.stack_cap, "bytes": m2.bytes, "collections": m2.collections}}));
     }
@@ -172,7 +186,7 @@ impl Prop for C12 {
         "C12"
     }
     fn rule(&self) -> &'static str {
-        "garbage-producing loop templates, one per allocation kind (pairs, lists, vectors, strings, closures and their environments, continuations, checkpoint continuations handed to a recording helper after an earlier 600-deep recursion, code compiled by eval, lambdas compiled by eval, interned symbols, bignums, floats/rationals, promises, mixed) and six harness-driven kinds (successive top-level evaluations, redefinition of one global, fresh quoted symbols, a lambda per evaluation, fresh unbound global names, evaluations that fail at compile time after allocating a literal) x live-set size {0, 10, 1000} x n and 10n (quick n=5000, thorough n=10^5). Heap capacity, stack capacity and process live bytes after 10n must be <= 1.5x the values after n + slack (8192 cells / 256 slots / 1 MiB); the live set's checksum must be intact; after every collection no cell unreachable by the harness' traversal may remain allocated. Non-trivial: at least 3 collections happened; distinct by (kind, live, n)."
+        "garbage-producing loop templates, one per allocation kind (pairs, lists, vectors, strings, closures and their environments, continuations, checkpoint continuations handed to a recording helper after an earlier 600-deep recursion, code compiled by eval, lambdas compiled by eval, interned symbols, bignums, floats/rationals, promises, mixed) and six harness-driven kinds (successive top-level evaluations, redefinition of one global, fresh quoted symbols, a lambda per evaluation, fresh unbound global names, evaluations that fail at compile time after allocating a literal) x live-set size {0, 10, 1000 pairs; for six kinds also 1000 records of about 12 cells each, so that the live data outgrows the first heap chunk} x n and 10n (quick n=5000, thorough n=10^5). Heap capacity, stack capacity and process live bytes after 10n must be <= 1.5x the values after n + slack (8192 cells / 256 slots / 1 MiB); the live set's checksum must be intact; after every collection no cell unreachable by the harness' traversal may remain allocated. Non-trivial: at least 3 collections happened; distinct by (kind, live, n)."
     }
     fn assumptions(&self) -> Vec<&'static str> {
         vec![
@@ -200,6 +214,21 @@ impl Prop for C12 {
                 }
             }
         }
+        // a live set of 1000 records (about 12 cells each): the live data alone is larger than
+        // the first heap chunk
+        for kind in ["pairs", "strings", "closures", "continuations", "mixed", "successive-evaluations"] {
+            idx += 1;
+            if idx % ctx.nshards != ctx.shard {
+                continue;
+            }
+            ctx.count(1);
+            ctx.beat();
+            let is_top = TOPLEVEL_KINDS.iter().any(|(k, _)| *k == kind);
+            let nn = if is_top { n / 5 } else { n };
+            if let Some((sig, detail)) = run_template_with(ctx, kind, 1000, nn, false, true) {
+                ctx.report("template", json!({"kind": kind, "live": 1000, "n": nn, "rich": true}), &format!("{}|records", sig), &detail);
+            }
+        }
         // the same loops driven in slices (prepare_eval + run_count(1000))
         for kind in ["pairs", "closure-environments", "continuations", "checkpoint-continuations", "eval-code", "interned-symbols", "mixed"] {
             idx += 1;
@@ -219,8 +248,13 @@ impl Prop for C12 {
         let kind = payload["kind"].as_str().unwrap_or("").to_string();
         let live = payload["live"].as_u64().unwrap_or(0) as usize;
         let n = payload["n"].as_u64().unwrap_or(1000) as usize;
-        match run_template(ctx, &kind, live, n, sliced) {
-            Some((sig, detail)) => Outcome::fail(sig, detail, payload.clone()),
+        let rich = payload["rich"].as_bool().unwrap_or(false);
+        match run_template_with(ctx, &kind, live, n, sliced, rich) {
+            Some((sig, detail)) => {
+                let sig = if sliced { format!("{}|sliced", sig) } else { sig };
+                let sig = if rich { format!("{}|records", sig) } else { sig };
+                Outcome::fail(sig, detail, payload.clone())
+            }
             None => Outcome::Pass,
         }
     }
